@@ -151,3 +151,56 @@ func VerifC26Routing() {
 	c26Lookup(svc2, probe, model, "reloaded")
 	sym.Reached("end")
 }
+
+// Re-heartbeat of a known region next to other known regions: three disjoint
+// regions with symbolic one-byte bounds, then one heartbeat for any id (known
+// or new) with an arbitrary new range and epoch. Acceptance must be exactly
+// "not stale and disjoint from every OTHER region", and routing must follow.
+func VerifC26Reheartbeat() {
+	cluster := core.NewCluster()
+	svc := pdserver.NewService(cluster, nil, nil)
+	ctx := context.Background()
+	// known regions 1,2,3 in key order: [b0,b1) [b2,b3) [b4,b5), gaps allowed
+	b := sym.Bytes("bound", 6)
+	for i := 0; i+1 < 6; i++ {
+		if i%2 == 0 {
+			sym.Assume(b[i] < b[i+1])
+		} else {
+			sym.Assume(b[i] <= b[i+1])
+		}
+	}
+	var model []c26Region
+	for i := 0; i < 3; i++ {
+		r := c26Region{id: uint64(i + 1), start: []byte{b[2*i]}, end: []byte{b[2*i+1]}, ver: 5, conf: 5}
+		_, err := svc.RegionHeartbeat(ctx, &pb.RegionHeartbeatRequest{Region: &pb.RegionMeta{Id: r.id, StartKey: r.start, EndKey: r.end, EpochVersion: r.ver, EpochConfVersion: r.conf}})
+		sym.Assert(err == nil, "setup-accepted")
+		model = append(model, r)
+	}
+	id := uint64(sym.Int("id", 1, 4))
+	r := c26Region{id: id, start: c26Key("start", 1), end: c26Key("end", 1), ver: uint64(sym.SymInt("ver", 4, 6)), conf: uint64(sym.SymInt("conf", 4, 6))}
+	if len(r.start) > 0 && len(r.end) > 0 {
+		sym.Assume(sym.BytesLess(r.start, r.end))
+	}
+	stale, overlap := false, false
+	at := -1
+	for j, m := range model {
+		if m.id == id {
+			at = j
+			stale = sym.Or(r.ver < m.ver, sym.And(r.ver == m.ver, r.conf < m.conf))
+		} else {
+			overlap = sym.Or(overlap, c26Overlap(r, m))
+		}
+	}
+	want := sym.And(!stale, !overlap)
+	_, err := svc.RegionHeartbeat(ctx, &pb.RegionHeartbeatRequest{Region: &pb.RegionMeta{Id: id, StartKey: r.start, EndKey: r.end, EpochVersion: r.ver, EpochConfVersion: r.conf}})
+	sym.Assert((err == nil) == want, "heartbeat-accepted-iff-fresh-and-disjoint")
+	if err == nil {
+		if at >= 0 {
+			model[at] = r
+		} else {
+			model = append(model, r)
+		}
+	}
+	c26Lookup(svc, c26Key("probe", 1), model, "live")
+	sym.Reached("end")
+}
